@@ -145,6 +145,15 @@ static void run_block_t(Ctx &c) {
       for (long i = 0; i < n; ++i) if (oh[2*i] != out[i](0) || oh[2*i+1] != out[i](1)) { c.fail("spmv", "hybrid-backend", fmt("block row %ld", i)); break; }
       std::vector<double> rh(2 * n, 7.0); be::residual(ys, *H, xs, rh);
       for (long i = 0; i < n; ++i) if (rh[2*i] != rb[i](0) || rh[2*i+1] != rb[i](1)) { c.fail("residual", "hybrid-backend", fmt("block row %ld", i)); break; }
+      // mixed precision: single-precision blocks applied to double-precision scalar vectors (small integers: exact in both)
+      { typedef amgcl::static_matrix<float,2,2> BF; typedef be::builtin_hybrid<BF> HF; auto Af = std::make_shared<be::crs<float> >(*As);
+        auto Hf = HF::copy_matrix(Af, typename HF::params());
+        std::vector<double> of(2 * n); for (long i = 0; i < 2 * n; ++i) of[i] = mk<double>::poison((int)i % 3);
+        be::spmv(al, *Hf, xs, 0.0, of);
+        for (long i = 0; i < n; ++i) if (of[2*i] != out[i](0) || of[2*i+1] != out[i](1)) { c.fail("spmv", "hybrid-backend-mixed-precision", fmt("block row %ld: %g %g, expected %g %g", i, of[2*i], of[2*i+1], (double)out[i](0), (double)out[i](1))); break; }
+        std::vector<double> rf(2 * n, 7.0); be::residual(ys, *Hf, xs, rf);
+        for (long i = 0; i < n; ++i) if (rf[2*i] != rb[i](0) || rf[2*i+1] != rb[i](1)) { c.fail("residual", "hybrid-backend-mixed-precision", fmt("block row %ld", i)); break; }
+        c.res.counts["mixed_precision_hybrid"]++; }
     }
 }
 
